@@ -111,10 +111,25 @@ std::string name_of_key(const std::string& text, bool peer) {
     return text.substr(0, 8);
 }
 
+// The planted descriptor belongs to the Session once SessionManager's Session closes its socket in
+// its destructor (repo commit "let the Session own its descriptor"); on older trees nobody closes
+// it. So: drop the Session first (callers do), then close node_fd only if it is still open.
+// Closing it unconditionally double-closed a descriptor number that the next socketpair() had
+// already reused for the NEW link (false `release`/`nack` alarms, see notes/C23.md).
 void close_link(Link& l) {
-    if (l.node_fd >= 0) ::close(l.node_fd);
+    if (l.node_fd >= 0 && ::fcntl(l.node_fd, F_GETFD) != -1) ::close(l.node_fd);
     if (l.our_fd >= 0) ::close(l.our_fd);
     l.node_fd = l.our_fd = -1;
+}
+void drop_session(const PeerId& p) {
+    if (!node) return;
+    std::shared_ptr<network::SessionManager::Session> old;
+    {
+        std::scoped_lock lock(node->sessions_.sessions_mutex_);
+        auto it = node->sessions_.sessions_.find(network::SessionManager::peer_key_string(p));
+        if (it != node->sessions_.sessions_.end()) { old = std::move(it->second); node->sessions_.sessions_.erase(it); }
+    }
+    old.reset();   // destructor (if it owns the descriptor) runs here, before any descriptor is reused
 }
 
 void ensure_node() {
@@ -337,6 +352,7 @@ int main(int argc, char** argv) {
         if (op == "link" && t.size() == 2) {
             const auto p = intern(t[1], true);
             auto& l = links[t[1]];
+            drop_session(p);
             close_link(l);
             int sv[2];
             if (::socketpair(AF_UNIX, SOCK_STREAM, 0, sv) != 0) return "throw:other";
@@ -357,10 +373,7 @@ int main(int argc, char** argv) {
         }
         if (op == "unlink" && t.size() == 2) {
             const auto p = intern(t[1], true);
-            {
-                std::scoped_lock lock(node->sessions_.sessions_mutex_);
-                node->sessions_.sessions_.erase(network::SessionManager::peer_key_string(p));
-            }
+            drop_session(p);
             auto it = links.find(t[1]);
             if (it != links.end()) { close_link(it->second); links.erase(it); }
             return observe();
